@@ -591,6 +591,18 @@ class Sim:
 
         self._patch(DBSession, "__aexit__", aexit)
 
+        # the schema is written in autocommit mode, outside any transaction: a crash point of
+        # its own (tables exist, nothing else does)
+        orig_apply_schema = DBSession.apply_schema
+
+        async def apply_schema(db, *args, **kwargs):
+            fresh = await orig_apply_schema(db, *args, **kwargs)
+            if fresh and db is sim.db:
+                sim.snap("schema")
+            return fresh
+
+        self._patch(DBSession, "apply_schema", apply_schema)
+
         from stepup.core import finalize as su_finalize
 
         orig_try_remove = su_finalize._try_remove
